@@ -7,15 +7,15 @@ import ddgen
 from checks import ddcommon
 
 META = {
-    "title": "operations issued concurrently return the sequential handles; diagram stays well-formed with exact counts",
-    "technique": "Rocq proof over a Gallina interleaving model of the concurrent unique table and reference counts (atomic actions get_or_insert / retain / release / move / collect-one-node of any number of threads; invariant = well-formed + per-level unique + exact counts, preserved by every action under every schedule; canonicity hence the same handle as a sequential run; collector removes only unowned, unreferenced nodes); tie to the code: trace validation - the cfg(oxidd_verif) hooks of /repo log every get_or_insert and every collected node inside parallel blocks run by several OS threads with seeded schedule perturbation, the log is replayed by the extracted step function of the model and the manager's table after the block must equal the model's; results are compared with the sequential specification",
+    "title": "operations issued concurrently return the sequential handles; diagram stays well-formed with exact counts; the apply cache never serves a dangling weak edge",
+    "technique": "Rocq proof over a Gallina interleaving model of the concurrent unique table and reference counts (atomic actions get_or_insert / retain / release / move / collect-one-node of any number of threads; invariant = well-formed + per-level unique + exact counts, preserved by every action under every schedule; canonicity hence the same handle as a sequential run; collector removes only unowned, unreferenced nodes), extended by the apply cache (buckets with a lock bit and one entry of WEAK operand/value edges; try_lock / set / get+clone / unlock of the workers, pre_gc bucket by bucket / sweep / post_gc of the collector that runs under the shared lock): no dangling weak edge in any reachable state, a hit yields the memoised function, and the two broken protocol variants (empty buckets not kept locked; a lock() two parties can acquire) are refuted by computed witnesses; tie to the code: trace validation - the cfg(oxidd_verif) hooks of /repo log every get_or_insert, every collected node and every apply cache event (insertion, hit, per-bucket pre_gc lock and post_gc unlock, each reported with the bucket locked) inside parallel blocks run by several OS threads with seeded schedule perturbation, the log is replayed by the extracted step functions of the model and the manager's table after the block must equal the model's; results are compared with the sequential specification",
     "category": "proof",
     "design_ref": "DESIGN.md section 5, C07",
-    "level_text": "Theorems (coq/Props/C07.v) over coq/Mgr/Conc.v: every action of every thread preserves the invariant CInv (keys distinct, node preconditions, per-level uniqueness, owned edges valid, reported count = owner tokens + parent edges), hence every state reachable under ANY interleaving is a well-formed snapshot with exact reference counts to which the canonicity theorems of C01 apply (two threads that build the same function hold the same edge = the handle of a sequential run); a node with a positive count keeps its level and children under every action of other threads and of the collector; the collector can only remove nodes without owner and parent; the table-only projection used for replay is simulated by the full model. Tie to the code on every run: histories with 2-4 OS threads (plus the manager's worker pool: *MT function types with 1/2/4 workers) executing apply / ite / quantification / clone / drop and collections under the shared lock concurrently on one manager (BDD, BCDD, ZBDD), with seeded random yields/spins injected at the hook sites (level lock, apply cache get/add, retain/release, collector); (1) the logged table events are replayed by the extracted model step: no duplicate insertion, no stale hit, no dangling or ill-formed node, no collection of a referenced node, final table identical; (2) every result's value table is compared with the sequential specification and all handles are audited for canonicity (same function => same edge, also across threads), well-formedness and exact reference counts on the snapshot after each block (extracted checkers of C01/C03/C05).",
-    "level_note": "PARTIAL by nature: the theorem is about the model's atomic actions; that the hooked regions of /repo are atomic (correctness of parking_lot mutexes, the hand-written RwLock, Release/Acquire ordering on reference counts, rayon) is assumed, not verified, and data races below the granularity of the hooks cannot be exhibited. The explored interleavings are those the OS scheduler plus the seeded perturbation produce (a search, not an enumeration): a replay re-runs the same case and seed but the interleaving may differ. Deadlock freedom is covered by the watchdog (a hang is a violation) and by the lock-order lemma of the model only. Index-based manager only (the pointer-based store has no hooks). Trusted: Coq kernel, extraction, OCaml drivers, Rust harness, the hooks.",
+    "level_text": "Theorems (coq/Props/C07.v) over coq/Mgr/Conc.v: every action of every thread preserves the invariant CInv (keys distinct, node preconditions, per-level uniqueness, owned edges valid, reported count = owner tokens + parent edges), hence every state reachable under ANY interleaving is a well-formed snapshot with exact reference counts to which the canonicity theorems of C01 apply (two threads that build the same function hold the same edge = the handle of a sequential run); a node with a positive count keeps its level and children under every action of other threads and of the collector; the collector can only remove nodes without owner and parent; the table-only projection used for replay is simulated by the full model. C07_cache_* over coq/Mgr/ConcCache.v (apply cache of weak edges + collector phases, the code's protocol): the invariant KInv (CInv + every operand/value edge of every cache entry points to a stored node or terminal + buckets held by the collector are empty, locked and free of workers + one worker per bucket + exact lock bits) is preserved by every action of every thread and of the collector under every schedule; a hit returns valid edges, the thread owns them, and every edge of the entry denotes what it denoted when the entry was written (memoised function); whenever the collector removes a node all buckets are empty and locked; REFUTED by computed schedules: pre_gc skipping empty buckets, and a lock() that ignores the swapped value, both reach a dangling entry in an unlocked bucket whose next hit breaks CInv. The log-level replay lstep accepts the projection of every behaviour of the model (C07_cache_log_sim / trace_sim) and whatever it accepts has no dangling entry (C07_cache_log_inv / clog_inv). Tie to the code on every run: histories with 2-4 OS threads (plus the manager's worker pool: *MT function types with 1/2/4 workers) executing apply / ite / quantification / clone / drop and collections under the shared lock concurrently on one manager (BDD, BCDD, ZBDD), with seeded random yields/spins injected at the hook sites (level lock, apply cache get/add, retain/release, collector); (1) the logged table events are replayed by the extracted model step: no duplicate insertion, no stale hit, no dangling or ill-formed node, no collection of a referenced node, final table identical; (1b) the logged apply cache events are replayed by the extracted lstep/clstep: no insertion or hit in a bucket between its pre_gc lock and post_gc unlock, no removal by the collector unless ALL buckets are locked, post_gc unlocks exactly what pre_gc locked, every hit names stored nodes only and equals the entry written last; (2) every result's value table is compared with the sequential specification and all handles are audited for canonicity (same function => same edge, also across threads), well-formedness and exact reference counts on the snapshot after each block (extracted checkers of C01/C03/C05).",
+    "level_note": "PARTIAL by nature: the theorem is about the model's atomic actions; that the hooked regions of /repo are atomic (correctness of parking_lot mutexes, the hand-written RwLock and the cache's spin lock, Release/Acquire ordering on reference counts, rayon) is assumed, not verified, and data races below the granularity of the hooks cannot be exhibited: a broken bucket lock is only seen when the race actually happens in a run (the gcstorm cases make the collector take 1-2 buckets a few thousand times per case while 3 threads hammer them). The explored interleavings are those the OS scheduler plus the seeded perturbation produce (a search, not an enumeration): a replay re-runs the same case and seed but the interleaving may differ. The cache model's operator is opaque: 'memoised function' = the denotations of operand and value edges are unchanged between insertion and hit (any relation between them that held at insertion holds at the hit); it is not instantiated with the CacheOK predicate of the apply proofs (C02). The log does not contain the operator and numeric operands of an entry nor the cache contents at the start of a block (entries written before are 'unknown': their hits are only checked for dangling edges). Deadlock freedom is covered by the watchdog (a hang is a violation) and by the lock-order lemma of the model only. Index-based manager and direct-mapped cache only (the pointer-based store has no hooks). Trusted: Coq kernel, extraction, OCaml drivers, Rust harness, the hooks.",
 }
 ALLOWED_AXIOMS = ()
-MODEL_VOS = ["Base/Conv.vo", "DD/Table.vo", "DD/TableExtra.vo", "Mgr/Conc.vo"]
+MODEL_VOS = ["Base/Conv.vo", "DD/Table.vo", "DD/TableExtra.vo", "Mgr/Conc.vo", "Mgr/ConcCache.vo"]
 
 
 def build(ctx):
@@ -335,9 +335,22 @@ def case_trace(impl_file, cid):
     return []
 
 
+def replay_controls(ctx, drv_tr):
+    """The replay of the apply cache events must reject the hand-written protocol violations of
+    corpus/C07/cache-protocol-controls.txt (cases n*) and accept the protocol-conforming log (p1)."""
+    f = os.path.join(vf.ROOT, "corpus", "C07", "cache-protocol-controls.txt")
+    ok, bad, _ = vf.run_driver(drv_tr, f, os.path.join(ctx.workdir, "controls.txt"))
+    want_bad = {l.split()[1] for l in open(f) if l.startswith("CASE n")}
+    got_bad = {c for c, m in bad if "kind=prop" in m}
+    if ok != 1 or got_bad != want_bad or len(bad) != len(want_bad):
+        raise vf.CheckFailure(f"the cache protocol replay does not classify its control logs as expected: ok={ok} bad={sorted(c for c, _ in bad)}")
+    ctx.add_stat("cache_protocol_controls_rejected", len(got_bad))
+
+
 def run(ctx):
     vf.proof_gate(ctx, ALLOWED_AXIOMS)
     binp, drv_dd, drv_tr = build(ctx)
+    replay_controls(ctx, drv_tr)
     cases = gen_cases(ctx)
     by_id = {h.split()[0]: (h, ops) for h, ops in cases}
     res = run_both(ctx, binp, drv_dd, drv_tr, cases)
@@ -370,24 +383,28 @@ def run(ctx):
             sig = f"{kind}:{src}:{cls[1]}:{cls[2]}:{hk}:case-{cid}"
             vf.report_violation(
                 ctx, sig,
-                {"stage": "correspondence", "kind": kind, "source": "trace replay (coq/Mgr/Conc.v step_tbl)" if src == "trace" else "result / snapshot audit against the sequential specification",
+                {"stage": "correspondence", "kind": kind, "source": "trace replay (coq/Mgr/Conc.v step_tbl, coq/Mgr/ConcCache.v clstep)" if src == "trace" else "result / snapshot audit against the sequential specification",
                  "case_header": header, "ops": ops, "verdict": msg,
                  "logged_table_events_of_the_failing_run": events[:400],
                  "note": "the interleaving is chosen by the OS scheduler and the seeded perturbation; --replay re-runs this case (several times) with the same seed",
                  "replay_cmd": "./check C07 --replay <this file>",
-                 "theorem_or_relation": "C07: coq/Props/C07.v (C07_run_inv, C07_conc_canonical, C07_erase_sim); driver relation named in the verdict"},
+                 "theorem_or_relation": "C07: coq/Props/C07.v (C07_run_inv, C07_conc_canonical, C07_erase_sim; apply cache: C07_cache_run_inv, C07_cache_trace_sim, C07_cache_clog_inv); driver relation named in the verdict"},
                 nfif=(kind != "prop"))
     ctx.samples = [{"case": h, "ops": ops[:30] + (["..."] if len(ops) > 30 else [])} for h, ops in (cases[:1] + cases[-1:])]
     ctx.stats["cases"] = len(cases)
     ctx.stats["distinct_nontrivial"] = len({(h.split(" ", 1)[1], tuple(ops)) for h, ops in cases if any(o.startswith("PAR") for o in ops)})
     vf.write_evidence(
         ctx, "proof",
-        rule="per kind (bdd, bcdd, zbdd): random histories with 2-4 parallel blocks, each executed by 2-4 OS threads (plus 1/2/4 pool workers) on one manager: apply, not, ite, quantification, clone, drop (also on another thread), node_count and collections under the shared lock; several threads compute the same operation on the same operands; churn blocks (a small set of operations recomputed and dropped over and over while one thread collects continuously); hammer cases (one long churn block, 120-260 rounds per thread against 80-200 collections, on an apply cache of 1 or 2 buckets); seeded yield/spin injection (0/5/20/50 percent) at the hook sites; sequential interludes with drops and gc. non-trivial = case with at least one parallel block; distinct = distinct (header, op list)",
+        rule="per kind (bdd, bcdd, zbdd): random histories with 2-4 parallel blocks, each executed by 2-4 OS threads (plus 1/2/4 pool workers) on one manager: apply, not, ite, quantification, clone, drop (also on another thread), node_count and collections under the shared lock; several threads compute the same operation on the same operands; churn blocks (a small set of operations recomputed and dropped over and over while one thread collects continuously); hammer cases (one long churn block, 120-260 rounds per thread against 80-200 collections, on an apply cache of 1 or 2 buckets); gcstorm cases (3 threads recompute a few operations 200-300 times each on a cache of 1 or 2 buckets while the fourth thread runs up to 3000 collections in a row for as long as they work); seeded yield/spin injection (0/5/20/50 percent) at the hook sites; sequential interludes with drops and gc. non-trivial = case with at least one parallel block; distinct = distinct (header, op list)",
         checker_cmd="make -C coq Props/C07.vo (coqc 8.16.1) + Print Assumptions audit; ./check C07",
         extra_cov={"cases_ok": res["ok"], "cases_bad_trace_replay": len(res["bad_tr"]), "cases_bad_result_audit": len(res["bad_dd"]),
                    "traces_validated_against_impl": int(ctx.stats.get("trace_par_blocks", 0)) - int(ctx.stats.get("trace_par_blocks_not_replayed", 0)),
                    "logged_get_or_insert_events_replayed": int(ctx.stats.get("trace_ev_goi", 0)),
                    "logged_collector_removals_replayed": int(ctx.stats.get("trace_ev_gc_remove", 0)),
+                   "logged_cache_insertions_replayed": int(ctx.stats.get("trace_ev_cache_add", 0)),
+                   "logged_cache_hits_replayed": int(ctx.stats.get("trace_ev_cache_hit", 0)),
+                   "logged_collections_with_cache_protocol_replayed": int(ctx.stats.get("trace_ev_cache_sweeps", 0)),
+                   "logged_bucket_locks_by_pre_gc_replayed": int(ctx.stats.get("trace_ev_cache_buckets_locked", 0)),
                    "tier": ctx.tier},
         assumptions=[
             "atomicity of the hooked regions of /repo (mutexes, the RwLock, atomics with Release/Acquire, rayon) is assumed; the model's actions are atomic by definition",
